@@ -1490,7 +1490,7 @@ fn field_class(f: &str) -> String {
 pub fn options_for(profile: &str) -> Options {
     let mut o = Options::default();
     match profile {
-        "aux" | "tall" => o.transparency = true,
+        "aux" | "tall" | "aux-proc" => o.transparency = true,
         "purity" => {
             o.model_oracles = false;
             o.purity = true;
